@@ -201,6 +201,7 @@ func borderPos(r *verifsim.Run, c *aCfg) (int, int) {
 // genDetScenario: configuration + explicit frame contents. ffc: generate FFC events.
 func genDetScenario(r *verifsim.Run, focus string) *aScenario {
 	sc := &aScenario{Focus: focus}
+	sc.ColdStart = focus == "C09" && r.Chance(1, 4)
 	c := &sc.Cfg
 	c.W = r.OneOf(4, 5, 6, 8, r.Range(4, 16))
 	c.H = r.OneOf(4, 5, 6, r.Range(4, 12))
@@ -243,6 +244,18 @@ func genDetScenario(r *verifsim.Run, focus string) *aScenario {
 		c.Motion.DynamicThreshold = true
 	case "C08", "C09":
 		c.Motion.DynamicThreshold = r.Chance(1, 2)
+	}
+	if (focus == "C07" || focus == "C08") && !c.Motion.DynamicThreshold && r.Chance(1, 10) {
+		// the configured border covers the whole frame (at least in one dimension): every pixel is a border
+		// pixel, nothing is left to compare (fixed threshold only: with a dynamic one the background
+		// estimate of such a geometry indexes outside the frame - an observation outside every quantifier)
+		m := c.W
+		if c.H < m {
+			m = c.H
+		}
+		c.Edge = (m+1)/2 + r.Draw(2)
+		c.Motion.EdgePixels = c.Edge
+		sc.AllBorder = true
 	}
 	if !c.Motion.DynamicThreshold && r.Chance(1, 3) {
 		// the dynamic-threshold bounds are configured although the threshold is fixed: they must not matter
@@ -370,6 +383,9 @@ func describeDet(r *verifsim.Run, sc *aScenario) {
 		b = append(b, ch)
 	}
 	r.Set("events", string(b))
+	if sc.AllBorder {
+		r.Probe("edge-border-covers-the-whole-frame")
+	}
 }
 
 // ---- unit A.det : C07 -----------------------------------------------------------------
@@ -618,6 +634,9 @@ func runAFFC(r *verifsim.Run) {
 		prevAff = e.FFC
 	}
 	r.ProbeN("ffc-affected-frames", nAff)
+	if sc.ColdStart {
+		r.Probe("stream-begins-at-power-on (FFC stamped 0)")
+	}
 	zz.CheckRecRules(r, tr, c.params()) // FFC frames have m=0, so no start/extension there (reported under C01-C04)
 	// rule 2: independence of what came before an FFC period / a camera reset (paired histories)
 	var cuts []int
